@@ -490,5 +490,5 @@ def parts(tier):
     multis = [(a, b, how) for a, b in (("score_1.1.0", "testlib_2.0.0"), ("testlib_2.1.0", "score_1.1.0"))
               for how in ("xml", "mediawiki", "tsv", "xml-file", "wiki-file", "tsv-file")]
     return [Part("bundled", oracle_bundled, enumerate_fn=make_enum(hedenv.BUNDLED), exhaustive=True),
-            Part("edited", oracle_edited, strategy=edit_script(), n=120 if q else 4800),
+            Part("edited", oracle_edited, strategy=edit_script(), n=120 if q else 2400),
             Part("multi-library", oracle_multilib, enumerate_fn=make_enum(multis), exhaustive=True)]
